@@ -94,6 +94,9 @@ class Unit:
         # demand (CBMC then sees their real body), so an edit that starts using another small helper
         # of the library stays decidable
         side = self.part1 + self.part2
+        for inc in re.findall(r'#\s*include\s+"((?:contracts|models)/[^"]+)"', side):      # contracts given in shared headers count too
+            try: side += open(os.path.join(VERIF, inc)).read()
+            except OSError: pass
         cmap = None
         progress = True
         while progress:
@@ -169,6 +172,9 @@ class Unit:
         """loops (of functions whose BODY is part of proof p) that have no loop contract in the sidecar: they are
         abstracted by havoc (invariant 1==1); a failure downstream of one may be an artefact of that abstraction"""
         side = self.part1 + self.part2
+        for inc in re.findall(r'#\s*include\s+"((?:contracts|models)/[^"]+)"', side):      # contracts given in shared headers count too
+            try: side += open(os.path.join(VERIF, inc)).read()
+            except OSError: pass
         out = []
         for c in [p.target] + list(p.reach_bodies):
             fi = self.fninfos.get(c)
